@@ -24,6 +24,7 @@ var suitesByProp = map[string][]func(*runner, *rng){
 	"C17": {suiteSchedules},
 	"C19": {suiteDeterminism},
 	"C08": {suiteTotality},
+	"C06": {suiteTeletext},
 	"C18": {suiteFaults},
 }
 
